@@ -625,6 +625,21 @@ def run(index: RepoIndex, rep) -> None:
                 rep.check(ok, 'C17.R5', g.relpath, g.short, e.line, src(e.node),
                           'process_reserved_keys is applied to data that may be the caller\'s '
                           'own (not a validated copy)', f'{g.short}: converts a copy')
+    # schemas are strict: a key the format does not know is an error, not noise (a misspelt
+    # optional section would otherwise silently build the default)
+    sm = index.module(SCHEMAS)
+    n_schema = 0
+    for n in ast.walk(sm.tree):
+        if isinstance(n, ast.Call) and src(n.func) in ('Schema', 'schema.Schema'):
+            n_schema += 1
+            loose = [k for k in n.keywords if k.arg == 'ignore_extra_keys' and not (
+                isinstance(k.value, ast.Constant) and k.value.value is False)]
+            rep.check(not loose, 'C17.R5', SCHEMAS, '<module>', n.lineno, src(n)[:80],
+                      'a schema ignores keys it does not know: a misspelt or unknown section '
+                      'is dropped instead of being rejected, and a different environment is '
+                      'built', f'strict schema at line {n.lineno}')
+    if n_schema < 10:
+        raise AnalysisError(f'found {n_schema} Schema(...) literals, floor is 10')
     fr = index.func('gym_gridverse/grid_object.py', 'GridObjectRegistry.from_name')
     w = walk_function(fr.node)
     rz = [e for e in w.events if e.kind == 'raise' and e.value is not None]
